@@ -154,6 +154,16 @@ type hstate struct {
 	recv int
 }
 
+// plainCodec is a message codec without stream framing (larking.Codec only).
+type plainCodec struct{}
+
+func (plainCodec) Marshal(v any) ([]byte, error) { return proto.Marshal(v.(proto.Message)) }
+func (plainCodec) MarshalAppend(b []byte, v any) ([]byte, error) {
+	return proto.MarshalOptions{}.MarshalAppend(b, v.(proto.Message))
+}
+func (plainCodec) Unmarshal(b []byte, v any) error { return proto.Unmarshal(b, v.(proto.Message)) }
+func (plainCodec) Name() string                    { return "plain" }
+
 func newMux(c Case, hs *hstate) *larking.Mux {
 	w := theWorld()
 	cfg := &serviceconfig.Service{}
@@ -173,6 +183,10 @@ func newMux(c Case, hs *hstate) *larking.Mux {
 	}
 	if c.Config&4 != 0 {
 		opts = append(opts, larking.MaxReceiveMessageSizeOption(64), larking.MaxSendMessageSizeOption(96))
+	}
+	if c.Config&8 != 0 {
+		// a user-supplied codec that implements Codec but not StreamCodec
+		opts = append(opts, larking.CodecOption("application/x-plain", plainCodec{}))
 	}
 	mux, err := larking.NewMux(opts...)
 	if err != nil {
@@ -493,7 +507,7 @@ var hostileQueries = []string{"", "f_int32=1", "f_int32=x", "nope=1", "r_int32=1
 	"o_leaf.count=1&o_string=x", "nest=1", "nest.leaf=1", "ts=x", "ts=2020-01-01T00:00:00Z", "mask=a,b", "w_string=%22", "w_string=\"", "w_bytes=%", "f_bytes=!!", "f_enum=PURPLE", "http_body.data=QQ",
 	"http_body.content_type=x", "=1", "&&&", "a=b=c", "nest..leaf=1", ".=1", "f_string=" + strings.Repeat("x", 300), "%zz=1", "r_string=a&r_string=b&r_string=", "body_leaf.color=7", "f_double=1e999", "f_float=NaN"}
 
-var headerPool = [][2]string{{"Content-Type", "application/json"}, {"Content-Type", "application/protobuf"}, {"Content-Type", "application/octet-stream"}, {"Content-Type", "google.api.HttpBody"},
+var headerPool = [][2]string{{"Content-Type", "application/x-plain"}, {"Accept", "application/x-plain"}, {"Content-Type", "application/json"}, {"Content-Type", "application/protobuf"}, {"Content-Type", "application/octet-stream"}, {"Content-Type", "google.api.HttpBody"},
 	{"Content-Type", "text/plain"}, {"Content-Type", "application/grpc+json"}, {"Content-Type", "application/grpc+nope"}, {"Content-Type", "application/grpc-web-text+proto"}, {"Content-Type", ""},
 	{"Accept", "google.api.HttpBody"}, {"Accept", "*/*"}, {"Accept", "application/protobuf;q=0.5, */*;q=0"}, {"Accept", ",,,"}, {"Accept-Encoding", "gzip"}, {"Accept-Encoding", "*"},
 	{"Content-Encoding", "gzip"}, {"Content-Encoding", "br"}, {"Content-Encoding", "identity"}, {"Grpc-Encoding", "gzip"}, {"Grpc-Encoding", "nope"}, {"Grpc-Encoding", "identity"},
@@ -660,7 +674,7 @@ var validRoutes = [][3]string{
 // genValidish starts from a request that reaches a handler and perturbs it.
 func genValidish(t *rapid.T) Case {
 	var c Case
-	c.Config = rapid.IntRange(0, 7).Draw(t, "config")
+	c.Config = rapid.IntRange(0, 15).Draw(t, "config")
 	c.Entry = rapid.SampledFrom([]string{"http", "http", "grpc", "grpcweb", "grpcwebtext", "ws"}).Draw(t, "ventry")
 	switch c.Entry {
 	case "http":
@@ -741,7 +755,7 @@ func genCase(t *rapid.T) Case {
 		return genValidish(t)
 	}
 	var c Case
-	c.Config = rapid.IntRange(0, 7).Draw(t, "config")
+	c.Config = rapid.IntRange(0, 15).Draw(t, "config")
 	c.Entry = rapid.SampledFrom([]string{"http", "http", "http", "grpc", "grpcweb", "grpcwebtext", "ws"}).Draw(t, "entry")
 	c.Method = rapid.SampledFrom([]string{"GET", "POST", "POST", "PATCH", "PUT", "DELETE", "HEAD", "OPTIONS", "websocket", "WEBSOCKET", "", "get", "*", "CONNECT"}).Draw(t, "method")
 	c.Path = genPath(t)
